@@ -331,6 +331,10 @@ def run(ctx):
         # boundary, otherwise the order is not antisymmetric with == (2^127 vs i128::MAX)
         from .c08 import check_mixed_orderings
         check_mixed_orderings(ctx, prog, tag, rule="C07.V8.mixed-ordering-casts-the-float-only-below-saturation", floor_name="C07.V8")
+        # ---- V9 (= C08.N7): `==` goes through coerce (as_f64 must call an integer exact exactly when it is), the order
+        # through the exact fallbacks; the two agree only if as_f64's exactness test is the guarded round trip
+        from .c08 import check_exactness_of_integer_floats
+        check_exactness_of_integer_floats(ctx, prog, tag, prefix="C07.V9")
         # ---- V7: membership agrees with equality.  `x in seq` is decided by the function the `In` instruction calls;
         # its searches over the members of a sequence / iterable (any / find / position / contains closures) must
         # return the result of `Value == Value` between the member and the needle - a specialised comparison
